@@ -28,9 +28,17 @@ STRUCT = ("get", "zip", "find", "enumerate", "next", "values", "keys", "from_utf
 
 
 def inline_policy(fn, ev):
+    """private helpers of the dynamic codec are analysed in place (extracting or inlining one does not change the tokens); the integer
+    helpers proven by BIT and the recursive walk itself stay calls"""
     if fn.argc == 0:
         return True
-    return fn.name in ("right", "try_take_varint_usize") and fn.crate == "postcard_dyn"
+    if fn.crate != "postcard_dyn":
+        return False
+    if fn.canon in (SER_FN, DE_FN):
+        return False
+    if fn.name == "try_take_varint_usize":
+        return True
+    return not vint.is_helper(fn) and fn.name not in ("take_one", "take_n")
 
 
 class Arms:
@@ -141,9 +149,9 @@ class Arms:
             return "try_from:" + (c.get("self_ty") or "?")
         if tr.endswith("convert::From") and nm == "from":
             st = c.get("self_ty") or "?"
-            if st in sym.INT_BITS or st in ("f64", "f32"):
+            if st in ("f64", "f32"):
                 return "from:" + st
-            return None
+            return None      # integer widenings keep the value (and are evaluated by the engine's model)
         if tr.endswith("convert::Into") and nm == "into":
             return "into:" + (c["args"][-1] if c["args"] else "?")
         if nm in ("to_le_bytes", "from_le_bytes", "to_be_bytes", "from_be_bytes"):
@@ -151,6 +159,8 @@ class Arms:
         if nm == "push" and "Vec" in key:
             if self.which == "ser":
                 a = norm(e["args"][1])
+                if a[0] == "cast" and a[3] == "bool":
+                    return "push:bool"        # `b as u8` / u8::from(b): 0 or 1 by construction
                 return "push:%s" % (a[1] if sym.is_c(a) else "byte")
             return "std:push"
         if nm == "extend_from_slice":
